@@ -223,7 +223,12 @@ func codecRecord(seed int64, n int, out string) error {
 		p *= 10
 		bvals = append(bvals, p, -p, p-1, -(p - 1), p+1, -(p + 1))
 	}
-	for e := uint32(0); e <= 18; e++ {
+	// exponents up to 30 and a few far beyond: no power of ten above 10^18 fits in 64 bits, the text must still be right
+	exps := []uint32{40, 63, 64, 65, 100, 999}
+	for e := uint32(0); e <= 30; e++ {
+		exps = append(exps, e)
+	}
+	for _, e := range exps {
 		for _, v := range bvals {
 			for _, wr := range wrs {
 				w.Emit(codecRT("amount", wr, v, e))
@@ -255,7 +260,7 @@ func codecRecord(seed int64, n int, out string) error {
 			v = r.Int63n(1<<40) - (1 << 39)
 		}
 		if r.Intn(2) == 0 {
-			w.Emit(codecRT("amount", wrs[r.Intn(3)], v, uint32(r.Intn(19))))
+			w.Emit(codecRT("amount", wrs[r.Intn(3)], v, uint32(r.Intn(31))))
 		} else {
 			if v > plim || v < -plim {
 				v %= plim
